@@ -45,14 +45,15 @@ Definition cond_res (c : condv) : res bool :=   (* Ok true = CEL condition, Ok f
   | CondEmpty | CondNotStr | CondBadCel => Rejected
   end.
 
-(** [id.(string)], then [getConfig], then the factory call — in Go's argument
-    evaluation order. *)
+(** [checkMechanismReference] (the id is a string, the config — if present — a
+    map; since fix f8fe9cb, finding C19-F3: before that the unchecked [id.(string)]
+    and [getConfig] panicked here), then the factory call. *)
 Definition create (k : kind) (kv : keyv) (cfg : cfgv) (cond : bool) : res mech :=
   match k_id kv with
-  | None => Panic
+  | None => Rejected
   | Some id =>
     match cfg with
-    | CfgBad => Panic
+    | CfgBad => Rejected
     | _ => if k_ok kv then Ok {| m_kind := k; m_id := id; m_cond := cond |} else Rejected
     end
   end.
@@ -126,11 +127,11 @@ Definition eh_step (e : ehstep) : res mech :=
   | None => Rejected                 (* "unsupported configuration in error handler" *)
   | Some kv =>
     match e_cfg e with
-    | CfgBad => Panic                (* getConfig runs first here *)
+    | CfgBad => Rejected             (* checkMechanismReference runs first here (fix f8fe9cb) *)
     | _ =>
       match cond_res (e_if e) with
       | Ok c => match k_id kv with
-                | None => Panic
+                | None => Rejected
                 | Some id => if k_ok kv then Ok {| m_kind := KEh; m_id := id; m_cond := c |} else Rejected
                 end
       | Rejected => Rejected | Panic => Panic
